@@ -164,8 +164,22 @@ func validRCSeqs(seqs []gen.B) bool {
 }
 
 func sketchView(n, k int, seqs [][]byte) (view []uint64, err error) {
-	if p := catch(func() { view = slices.Clone(mash.Sequences(n, k, seqs...).View()) }); p != nil {
+	// the sequences are a batch cut out of a longer list of the caller (records[i:i+b]...): the
+	// records behind the batch are not the library's to touch
+	guard1, guard2 := []byte("GUARD-1"), []byte("GUARD-2")
+	arena := make([][]byte, len(seqs)+2)
+	copy(arena, seqs)
+	arena[len(seqs)], arena[len(seqs)+1] = guard1, guard2
+	if p := catch(func() { view = slices.Clone(mash.Sequences(n, k, arena[:len(seqs)]...).View()) }); p != nil {
 		return nil, fmt.Errorf("Sequences(n=%d,k=%d) panicked: %v", n, k, p)
+	}
+	if string(arena[len(seqs)]) != "GUARD-1" || string(arena[len(seqs)+1]) != "GUARD-2" || len(arena[len(seqs)]) == 0 || &arena[len(seqs)][0] != &guard1[0] {
+		return nil, fmt.Errorf("Sequences(n=%d,k=%d) wrote to the caller's list behind the %d sequences it was given (the next records of the caller)", n, k, len(seqs))
+	}
+	for i := range seqs {
+		if len(arena[i]) != len(seqs[i]) || (len(seqs[i]) > 0 && &arena[i][0] != &seqs[i][0]) {
+			return nil, fmt.Errorf("Sequences(n=%d,k=%d) replaced sequence %d in the caller's list", n, k, i)
+		}
 	}
 	return view, nil
 }
@@ -208,6 +222,13 @@ func checkC17(c C17Case, o *Obs) error {
 	}
 	o.ClassIf(hasN, "has N")
 
+	if (len(seqs)+c.K)%2 == 0 {
+		// earlier in the process a call was given a file with a bad record after good ones, and
+		// the program recovered from the panic
+		catch(func() {
+			mash.Sequences(c.N, c.K, append(slices.Clone(seqs), []byte("ACGTTGCAGATTACAGATTACAXGATTACAGATTACAACGTTGCAGATTACAGATTACAGATTACAGATTACA"))...)
+		})
+	}
 	base, err := sketchView(c.N, c.K, seqs)
 	if err != nil {
 		return err
@@ -522,6 +543,10 @@ func checkFromJaccard(c C17Case, o *Obs) error {
 }
 
 func exhaustiveC17(thorough bool, emit func(C17Case) bool) {
+	// one chromosome-arm-sized sequence (beyond 2^18 bases) between two short records
+	if !emit(C17Case{Kind: "sketch", Seqs: []gen.B{gen.B("ACGTTGCAATGGCCA"), realDNA(300007, 3, true, true), gen.B("TTGACCAGTAGGATCCA")}, K: 21, N: 1000, RC: []bool{true, false}, Rot: 1, Partition: []int{1, 2}, N2: 9}) {
+		return
+	}
 	// contig-sized single sequences (size ladder) and read sets (thousands of short reads in one
 	// call, totalling more than any internal batch), real-data-shaped
 	for i, n := range sizeLadder {
